@@ -135,6 +135,25 @@ def run(ctx):
                                 ctx.fail(f"{site0}|{H.sysname(bn)}:{nm}", f"raises {type(e).__name__}: {e}"[:200], {"a": p, "b": pb})
                                 continue
                             cmp(f"{site0}|{H.sysname(bn)}:{nm}", sr, f(nv, nb), subs2, {"a": p, "b": pb})
+                        # in-place operators (the backend's _replace_data re-expresses the result in the operand's own system):
+                        # the same sequence on a fresh symbolic and a fresh numeric vector, every field compared after each step
+                        bn = H.SYS[dim][(si + 1) % len(H.SYS[dim])]
+                        pb = H.from_cart(bn, *H.cart_stratum(rng, "quadrants", dim))
+                        nb = H.obj(vector, bn, pb)
+                        sb, bsyms = build(dim, bn, False, "c")
+                        subs3 = dict(subs); subs3.update({bsyms[k]: pb[k] for k in bn})
+                        si_, ni_ = build(dim, names, mom, "a")[0], H.obj(vector, names, p, momentum=mom)
+                        for step, op in (("imul", lambda v_, w_: v_.__imul__(2.5)), ("iadd", lambda v_, w_: v_.__iadd__(w_)),
+                                         ("itruediv", lambda v_, w_: v_.__itruediv__(0.5)), ("isub", lambda v_, w_: v_.__isub__(w_))):
+                            n += 1
+                            distinct.add((step, sysn, mom, rep))
+                            try:
+                                si_ = op(si_, sb)
+                                ni_ = op(ni_, nb)
+                            except Exception as e:
+                                ctx.fail(f"{site0}|{H.sysname(bn)}:{step}", f"raises {type(e).__name__}: {e}"[:200], {"a": p, "b": pb})
+                                break
+                            cmp(f"{site0}|{H.sysname(bn)}:inplace.{step}", si_, ni_, subs3, {"a": p, "b": pb, "sequence": "a *= 2.5; a += b; a /= 0.5; a -= b (up to this step)"})
                         if len(samples) < 3 and dim == 4 and names[-1] == "tau":
                             samples.append({"system": sysn, "t": str(sv.t)[:120], "value": evalv(sv.t, subs), "numeric": nv.t})
         # M10: the members of SympyLib against the model's eval_sym semantics
